@@ -183,6 +183,10 @@ theorem stepFire_ops {w s t m s'} (hs : stepFire w s t m = some s') : OpsMap s s
   unfold stepFire at hs; ops_crush hs
 theorem stepTickBegin_ops {s t m s'} (hs : stepTickBegin s t m = some s') : OpsMap s s' := by
   unfold stepTickBegin at hs; ops_crush hs
+theorem stepExtPush_ops {s b s'} (hs : stepExtPush s b = some s') : OpsMap s s' := by
+  unfold stepExtPush at hs; ops_crush hs
+theorem stepExtBegin_ops {s b m s'} (hs : stepExtBegin s b m = some s') : OpsMap s s' := by
+  unfold stepExtBegin at hs; ops_crush hs
 theorem stepTime_ops {s t s'} (hs : stepTime s t = some s') : OpsMap s s' := by
   unfold stepTime at hs; ops_crush hs
 theorem stepCancel_ops {s s'} (hs : stepCancel s = some s') : OpsMap s s' := by
@@ -248,6 +252,8 @@ theorem step_ops {w s l s'} (hs : step w s l = some s') (hl : l.isOpEdge = false
   case ctxWeak => exact stepCtxWeak_ops hs
   case fire => exact stepFire_ops hs
   case tickBegin => exact stepTickBegin_ops hs
+  case extPush => exact stepExtPush_ops hs
+  case extBegin => exact stepExtBegin_ops hs
   case time => exact stepTime_ops hs
   case cancel => exact stepCancel_ops hs
   case taskPanic => exact stepTaskPanic_ops hs
